@@ -69,14 +69,14 @@ Definition wf_ring_graph (T : ty) (nodes : list node) : bool :=
 
 (* a tape value fits the recorded type of its node as far as the reading looks at it: n elements
    where the type is T, component-wise for tuples, anything elsewhere (keys) *)
-Fixpoint shape_ok (T : ty) (t : ty) (v : value) {struct v} : bool :=
+Fixpoint ring_shape_ok (T : ty) (t : ty) (v : value) {struct v} : bool :=
   if ty_eqb t T then match v with VArr es => (length es =? ring_n T)%nat | VTup _ => false end
   else match t, v with
        | TTuple ts, VTup vs =>
            (fix go (vs : list value) (ts : list ty) {struct vs} : bool :=
               match vs, ts with
               | [], [] => true
-              | v1 :: vs', t1 :: ts' => shape_ok T t1 v1 && go vs' ts'
+              | v1 :: vs', t1 :: ts' => ring_shape_ok T t1 v1 && go vs' ts'
               | _, _ => false
               end) vs ts
        | TTuple _, VArr _ => false
@@ -90,7 +90,7 @@ Fixpoint wf_ring_tape_from (T : ty) (i : nat) (nodes : list node) (tape : Z -> o
   | [] => true
   | nd :: r =>
       (if from_tape (n_op nd) then
-         match tape (Z.of_nat i) with Some v => shape_ok T (n_ty nd) v | None => false end
+         match tape (Z.of_nat i) with Some v => ring_shape_ok T (n_ty nd) v | None => false end
        else true)
       && wf_ring_tape_from T (S i) r tape
   end.
